@@ -30,6 +30,17 @@ type chanWatcher struct{ ch chan string }
 func (w chanWatcher) UpdateDesc(*bridgedesc.Target) { w.ch <- "u" }
 func (w chanWatcher) ReportError(error)             { w.ch <- "e" }
 
+// awaitCb waits for the next watcher callback; "-" if none arrives within the bound.
+func awaitCb(ch chan string) string {
+	select {
+	case s := <-ch:
+		return s
+	case <-time.After(limits().cb):
+		noteHang()
+		return "-"
+	}
+}
+
 func renderOpts(o reflection.ResolverOpts) string {
 	b2i := func(b bool) int {
 		if b {
@@ -60,11 +71,14 @@ func execOpts(f []string) string {
 	w := chanWatcher{ch: make(chan string, 16)}
 	r1 := rb.Build("opts-1", w)
 	r2 := rb.Build("opts-2", w)
-	<-w.ch // first poll of each (no connection: an error report)
-	<-w.ch
-	r1.Close()
-	r2.Close()
+	// first poll of each (no connection: an error report)
+	c1, c2 := awaitCb(w.ch), awaitCb(w.ch)
+	await(closeOutcome(r1))
+	await(closeOutcome(r2))
 	out := renderOpts(reflection.VerifBuilderOpts(rb))
+	if c1 != "e" || c2 != "e" {
+		out += " !first-poll-callbacks=" + c1 + c2
+	}
 	if renderOpts(reflection.VerifResolverOpts(r1)) != out || renderOpts(reflection.VerifResolverOpts(r2)) != out {
 		out += " !resolver-differs-from-builder"
 	}
@@ -143,7 +157,8 @@ func await(ch chan string) string {
 	select {
 	case s := <-ch:
 		return s
-	case <-time.After(3 * time.Second):
+	case <-time.After(limits().cb):
+		noteHang()
 		return "blocked"
 	}
 }
@@ -155,7 +170,7 @@ func execClose2(f []string) string {
 	rb := reflection.NewResolverBuilder(noPool{}, reflection.ResolverOpts{PollManually: true})
 	w := chanWatcher{ch: make(chan string, 16)}
 	r := rb.Build("close2", w)
-	<-w.ch
+	awaitCb(w.ch)
 	switch f[1] {
 	case "seq":
 		first := await(closeOutcome(r))
@@ -176,6 +191,9 @@ func execClose2(f []string) string {
 type indepPool struct {
 	mu  sync.Mutex
 	log map[string][]string
+	// target X is held inside its v1 attempt until releaseX is closed
+	xInV1    chan struct{}
+	releaseX chan struct{}
 }
 
 func (p *indepPool) Get(target string) (grpcadapter.ClientConn, bool) {
@@ -197,30 +215,60 @@ func (c indepConn) Stream(ctx context.Context, method string) (grpcadapter.Clien
 	c.p.mu.Lock()
 	c.p.log[c.target] = append(c.p.log[c.target], fmt.Sprintf("a%d", v))
 	c.p.mu.Unlock()
-	if c.target == "A" && v == 0 {
-		return nil, status.Error(codes.Unimplemented, "A only speaks v1alpha")
+	if c.target == "X" && v == 0 {
+		select {
+		case c.p.xInV1 <- struct{}{}:
+		default:
+		}
+		<-c.p.releaseX
+	}
+	if c.target != "B" && v == 0 {
+		return nil, status.Error(codes.Unimplemented, c.target+" only speaks v1alpha")
 	}
 	// an empty but valid contract: no services, no files
 	return &fakeStream{att: attempt{mode: 'S'}, c: &contract{valid: true}, notify: make(chan struct{}, 1)}, nil
 }
 
 func execIndep() string {
-	pool := &indepPool{log: map[string][]string{}}
+	pool := &indepPool{log: map[string][]string{}, xInV1: make(chan struct{}, 1), releaseX: make(chan struct{})}
 	rb := reflection.NewResolverBuilder(pool, reflection.ResolverOpts{PollManually: true})
 	w := chanWatcher{ch: make(chan string, 16)}
 	a := rb.Build("A", w)
-	ra := <-w.ch
+	ra := awaitCb(w.ch)
 	a.ResolveNow() // second poll of A: shows what A remembers
 	b := rb.Build("B", w)
-	rb1 := <-w.ch
-	a.Close()
-	b.Close()
+	rb1 := awaitCb(w.ch)
+	await(closeOutcome(a))
+	await(closeOutcome(b))
+
+	// overlapping polls of two v1alpha-only targets of ONE builder: X is held inside its v1 attempt while Y
+	// completes its fallback (and remembers v1alpha); X must then go on with v1alpha and deliver
+	rb2 := reflection.NewResolverBuilder(pool, reflection.ResolverOpts{PollManually: true})
+	wx, wy := chanWatcher{ch: make(chan string, 16)}, chanWatcher{ch: make(chan string, 16)}
+	x := rb2.Build("X", wx)
+	select {
+	case <-pool.xInV1:
+	case <-time.After(limits().cb):
+		noteHang()
+	}
+	y := rb2.Build("Y", wy)
+	ry := awaitCb(wy.ch)
+	close(pool.releaseX)
+	rx := awaitCb(wx.ch)
+	await(closeOutcome(x))
+	await(closeOutcome(y))
 	pool.mu.Lock()
 	defer pool.mu.Unlock()
-	la := pool.log["A"]
-	if len(la) > 2 {
-		// the second poll of A may or may not have started before Close; only its first stream is of interest
-		la = la[:3]
+	first := func(l []string, n int) string {
+		if len(l) > n {
+			l = l[:n]
+		}
+		if len(l) == 0 {
+			return "-"
+		}
+		return strings.Join(l, ",")
 	}
-	return fmt.Sprintf("A:%s:%s B:%s:%s", ra, strings.Join(la[:min(2, len(la))], ","), rb1, strings.Join(pool.log["B"][:1], ","))
+	// the second poll of A may or may not have started before Close: only the first poll's streams count
+	return fmt.Sprintf("A:%s:%s B:%s:%s X:%s:%s Y:%s:%s", ra, first(pool.log["A"], 2), rb1, first(pool.log["B"], 1),
+		rx, first(pool.log["X"], 2), ry, first(pool.log["Y"], 2))
 }
